@@ -600,6 +600,99 @@ let run_cache toks =
       | _ -> failwith ("bad cache op " ^ String.concat " " op)) ops;
   List.rev !out
 
+(* ------------------------------------------------------------------------- crash points (C19): the effect trace *)
+let ascii (l : n list) = str_of_bytes l
+let trace_of_plan (pl : pstep list) =
+  let temps = Hashtbl.create 4 and merged = Hashtbl.create 4 in
+  let idx tbl pre name = (match Hashtbl.find_opt tbl name with Some i -> i | None -> let i = Hashtbl.length tbl in Hashtbl.replace tbl name i; i) |> Printf.sprintf "%s%d" pre in
+  List.concat_map (fun st -> match st with
+      | PWrite (t, dest, chunks) ->
+        let tn = idx temps "T" (ascii t) in
+        let len = List.fold_left (fun a c -> a + List.length c) 0 chunks in
+        let dn = let d = ascii dest in if String.length d > 0 && d.[0] = '!' then idx merged "M" d else d in
+        [ "C:" ^ tn; Printf.sprintf "W:%s:%d" tn len; Printf.sprintf "R:%s:%s" tn dn ]
+      | PUnlink p -> [ "U:" ^ ascii p ]) pl
+let bytes_of_ascii (s : string) : n list = List.init (String.length s) (fun i -> byte_tab.(Char.code s.[i]))
+let crash_xorb_chunks id n = List.init n (fun i -> List.init (5 + (id * 7 + i * 13) mod 40) (fun j -> byte_tab.((id * 31 + i * 17 + j * 3 + 1) mod 256)))
+
+let fs_read_opt (s : cstate) p = List.exists (fun (q, _) -> q = p) s.fs
+
+let run_crash toks =
+  let (toks, aux) = split_aux toks in
+  match toks with
+  | kind :: param :: rest ->
+    let ops = split_ops rest in
+    (* groups separated by == *)
+    let groups = List.fold_left (fun acc op -> match op with
+        | ["=="] -> [] :: acc
+        | _ -> (match acc with g :: r -> (op :: g) :: r | [] -> [[op]])) [[]] ops |> List.rev_map List.rev in
+    (match kind with
+     | "flush" ->
+       let g = List.nth groups (List.length groups - 1) in
+       let bytes = serialize_from (build_mem g) in
+       [ "trace " ^ String.concat " " (trace_of_plan [PWrite (bytes_of_ascii "t0", bytes_of_ascii "!m0", [bytes])]) ]
+     | "consol" ->
+       let shards = List.map (fun a -> match String.split_on_char '=' a with
+           | [n; b] -> (bytes_of_ascii n, bytes_of_hex b)
+           | _ -> failwith "bad shard aux") (List.filter (fun x -> x <> "") aux) in
+       let temps = List.init (List.length shards + 1) (fun i -> bytes_of_ascii (Printf.sprintf "t%d" i)) in
+       (match consolidate (N.to_nat (n_of_int (List.length shards + 2))) (n_of_string param) shards temps [] with
+        | None -> ["MODEL: a merge failed"]
+        | Some (pl, _) ->
+          (* merged shards are named by the hash of their content, which holds a creation time: normalise to M<k> *)
+          let inputs = List.map (fun (n, _) -> ascii n) shards in
+          let pl = List.map (fun st -> match st with
+              | PWrite (t, d, ch) -> PWrite (t, (if List.mem (ascii d) inputs then d else bytes_of_ascii ("!" ^ ascii d)), ch)
+              | s -> s) pl in
+          [ "trace " ^ String.concat " " (trace_of_plan pl) ])
+     | "xorb" ->
+       let chunks = crash_xorb_chunks 7 3 in
+       let hashes = List.map compute_data_hash chunks in
+       let nodes = List.map2 (fun h c -> (h, n_of_int (List.length c))) hashes chunks in
+       let cashash = (match cas_node_hash compute_internal_node_hash nodes with Some h -> h | None -> failwith "fuel") in
+       let bytes = xorb_serialize (fun x -> x) (fun _ -> N0) cashash chunks hashes (Some N0) in
+       let name = "xorbs/default." ^ disp cashash in
+       [ "trace " ^ String.concat " " (trace_of_plan [PWrite (bytes_of_ascii "t0", bytes_of_ascii name, [bytes])]) ]
+     | "cput" ->
+       let g0 = List.nth groups 0 and g1 = List.nth groups 1 in
+       let evicting = List.length groups > 2 in
+       let uni = ref [||] in
+       List.iter (fun op -> match op with
+           | ["U"; kb; lens] -> uni := Array.append !uni [| (bytes_of_hex kb, Array.of_list (List.map int_of_string (String.split_on_char ',' lens))) |]
+           | _ -> ()) g0;
+       let mk_put k s e = let (offs, data) = cache_slice !uni k s e in OPut (fst (!uni).(k), n_of_int s, n_of_int e, List.map n_of_int offs, data) in
+       if evicting then ["trace (eviction: victims are random)"] else begin
+         let st = ref { tracked = []; nitems = N0; tbytes = N0; fs = []; cap = n_of_string param } in
+         List.iter (fun op -> match op with
+             | ["P"; k; s; e] -> let ((s1, _), _) = run_op !st (mk_put (int_of_string k) (int_of_string s) (int_of_string e)) [] in st := s1
+             | _ -> ()) g0;
+         (match g1 with
+          | [["P"; k; s; e]] ->
+            let o = mk_put (int_of_string k) (int_of_string s) (int_of_string e) in
+            let path_str (((a, b), c) : (n list * n list) * n list) = ascii a ^ "/" ^ ascii b ^ "/" ^ ascii c in
+            (* run the thread; the plan is the file write at its install step and the unlinks it performs afterwards *)
+            let rec go s p acc guard =
+              if guard = 0 then List.rev acc else
+              match p with
+              | PDone _ -> List.rev acc
+              | _ ->
+                let acc = (match p with
+                    | PHookFM (OPut (kk, _, _, offs, data)) ->
+                      PWrite (bytes_of_ascii "t0", bytes_of_ascii (path_str (item_path kk (new_item (match p with PHookFM o -> o | _ -> o)))), [encode_file offs data]) :: acc
+                    | PUnl (_, q :: _) -> PUnlink (bytes_of_ascii (path_str q)) :: acc
+                    | PRemHook (oo, it) -> (match fs_read_opt s (item_path (op_key oo) it) with true -> PUnlink (bytes_of_ascii (path_str (item_path (op_key oo) it))) :: acc | false -> acc)
+                    | _ -> acc) in
+                let ((s1, p1), _) = mstep s p [] in go s1 p1 acc (guard - 1) in
+            let pl = go !st (start_op o) [] 10000 in
+            (* the unlinks after the commit are a set *)
+            let (w, u) = List.partition (function PWrite _ -> true | _ -> false) pl in
+            let tr = trace_of_plan w @ List.sort compare (trace_of_plan u) in
+            [ "trace " ^ String.concat " " tr ]
+          | _ -> failwith "cput op")
+       end
+     | _ -> failwith "crash kind")
+  | _ -> failwith "bad crash case"
+
 let () =
   let stream = Sys.argv.(1) in
   let ic = open_in Sys.argv.(2) in
@@ -618,6 +711,7 @@ let () =
              | "c18" -> run_c18 toks
              | "dd" -> run_dd toks
              | "cache" -> run_cache toks
+             | "crash" -> run_crash toks
              | "c07" -> run_c07 toks
              | "bg4" -> run_bg4 toks
              | "c08" -> run_c08 toks
